@@ -461,6 +461,9 @@ def finish(pk):
               violations=sum(len(v) for v in viol_new.values()))
     os.makedirs(os.path.join(ROOT, "evidence"), exist_ok=True)
     evname = pid + (".partial.json" if getattr(pk, "partial", False) else ".json")
+    if os.path.realpath(REPO) != "/repo":
+        # runs against a patched scratch copy (tools/mut.py, seed intake) never touch the evidence of /repo
+        evname = pid + ".scratch.json"
     with open(os.path.join(ROOT, "evidence", evname), "w") as f:
         f.write(json.dumps(ev, default=jdefault, indent=1, sort_keys=True) + "\n")
 
